@@ -34,8 +34,12 @@ def calculate_regression(data_set: List[Tuple[float, float, float]]) -> Tuple[fl
     Calculates a weighted linear regression over the data given in data_set.
     Expects data_set to consist of 3-tuples of (blow_time, real_time, weight).
     """
-    blow_times = [b for (b, r, w) in data_set]
-    real_times = [r for (b, r, w) in data_set]
+    # Regress relative to the first datapoint rather than on the raw values: the real times are seconds since
+    # 1970 (~1.8e9) and the blow times keep growing throughout a touch, which makes the matrix below so badly
+    # conditioned that the result becomes noticeably wrong after a few minutes' ringing.
+    (blow_origin, real_origin, _) = data_set[0]
+    blow_times = [b - blow_origin for (b, r, w) in data_set]
+    real_times = [r - real_origin for (b, r, w) in data_set]
     weights = [w for (b, r, w) in data_set]
 
     num_datapoints = len(weights)
@@ -47,7 +51,10 @@ def calculate_regression(data_set: List[Tuple[float, float, float]]) -> Tuple[fl
     # Calculate (X^T * W * X)^-1 * (X^T * W * y)
     beta = numpy.linalg.inv(x.transpose().dot(w).dot(x)).dot(x.transpose()).dot(w).dot(y)
 
-    return beta[0][0], beta[1][0]
+    blow_interval = beta[1][0]
+    start_time = real_origin + (beta[0][0] - blow_interval * blow_origin)
+
+    return start_time, blow_interval
 
 
 # ===== UTILITY FUNCTIONS =====
